@@ -133,7 +133,7 @@ def kinds(case):
 
 
 def run(ctx, out, replay=None):
-    n = 1100 if ctx.quick() else 10000
+    n = 1100 if ctx.quick() else 8000
     out.rule = ("random netlist documents as for C05 (all module kinds and attribute combinations, nets of arity 2-6, "
                 "weights absent / 1 / other): 36% dyadic as drawn, 26% rewritten into an equally valid document on a boundary "
                 "(names null / true / yes / on / off / _ / area / Modules, names that are prefixes of each other, weights 1 / 1.0 "
